@@ -126,6 +126,14 @@ Definition snapshot (w : world) : sexp :=
       L (map (fun c => L [A (pc_hash c); A (pc_maxfee c); A (pc_msat c); eBool (pc_partial c)]) (l_calls (w_ln w)));
       L (map (fun k => L [A (k_id k); A (k_fee k); eBool (k_active k)]) (sort_by k_id (w_mem w))) ].
 
+(* a LoadMint that does not come up leaves no mint to take a snapshot of *)
+Definition failed_restart (o : op) (r : opres) : bool :=
+  match o, r with
+  | ORestart _ _, (RPanic | RFail _) => true
+  | _, _ => false
+  end.
+Definition empty_snapshot : sexp := L [L []; L []; L []; L []; L []; L []; L []].
+
 Definition oracle_of (positions : list Z) : oracle := fun i => mem i positions.
 
 Fixpoint run_items (cfg : config) (proj : Z) (w : world) (its : list item) : list sexp :=
@@ -134,7 +142,8 @@ Fixpoint run_items (cfg : config) (proj : Z) (w : world) (its : list item) : lis
   | it :: rest =>
       let '(w', out) :=
         match it with
-        | INormal o => let '(w1, r) := step cfg no_fault w o in (w1, L [e_res proj r; snapshot w1])
+        | INormal o => let '(w1, r) := step cfg no_fault w o in
+                       (w1, L [e_res proj r; if failed_restart o r then empty_snapshot else snapshot w1])
         | ICrash o k => let '(w1, r) := step_crash cfg (Z.to_nat k) w o in (w1, L [e_res proj r; snapshot w1])
         | IFault o ps => let '(w1, r) := step cfg (oracle_of ps) w o in (w1, L [e_res proj r; snapshot w1])
         | IConc os sc =>
